@@ -3,6 +3,8 @@ For each known finding that concerns a theorem: the negation of the property on 
 witness, proved by evaluation of the model (`decide`).  The same witness is replayed on the real
 code by the check of the property on every run.
 -/
+import MosaikProofs.Build.RunConfig
+import MosaikModel.Deliver
 import MosaikModel.Tiered
 import MosaikModel.Sched
 namespace Mosaik.Findings
@@ -21,6 +23,33 @@ theorem c08_mixed_cutoff_unordered :
     let a : TI := ⟨2, 2, [0, 1]⟩
     let b : TI := ⟨2, 1, [0, 1]⟩
     gt? a b = some true ∧ gt? b a = some true := by decide
+
+/-- C09-shift-carries-substep (D20): one event-based simulator in a group, a weak self-connection (the same-time loop) and a
+time-shifted self-connection (the hand-over to the next time step), `max_loop_iterations = 2`.  The loop needs two sub-steps per
+time step: (0,0) triggers (0,1), whose output - shifted by one - triggers (1,1): the sub-step index is carried into time 1.  The loop
+event of (1,1) demands (1,2) and the guard fires, although at time 1 a single sub-step has been performed and the blocked one would
+only be the second - "loops that settle within the bound are never interrupted" fails, for the scenario built by these calls. -/
+def d20Ops : List Build.Op :=
+  [ .start { ty := .eventBased, group := [0],
+             cls := (parseAttrs { anyInputs := false, attrs := some [0, 1, 2, 3] } .eventBased).getD default },
+    .connect { src := 0, seid := 0, dst := 0, deid := 0, pairs := [(3, 1)], weak := true },
+    .connect { src := 0, seid := 1, dst := 0, deid := 0, pairs := [(2, 0)], timeShifted := 1 },
+    .initEv 0 0 ]
+
+def d20Cfg : Cfg :=
+  Build.runCfg ((cacheTriggeringAncestors (Build.build d20Ops).sims []).toOption.getD []) 3 2 true false false
+
+def d20Run : List Action :=
+  [.stepReply 0 .none, .dataReply 0 { data := [((0, 3), some 1)] },      -- (0,0): loop event
+   .stepReply 0 .none, .dataReply 0 { data := [((1, 2), some 2)] },      -- (0,1): settled, hand-over over the shifted connection
+   .stepReply 0 .none, .dataReply 0 { data := [((0, 3), some 3)] }]      -- (1,1): loop event -> (1,2) is refused
+
+theorem c09_shift_carries_substep :
+    d20Cfg.maxLoop = 2 ∧
+    ((d20Run.foldlM (deliver d20Cfg) (startAll d20Cfg (initState d20Cfg))).map fun s =>
+      (s.failed, (s.sims 0).begun, ((s.sims 0).begun.filter fun t => tier t 0 == 1).length)) =
+        some (some (.loop 0), [[1, 1], [0, 1], [0, 0]], 1) := by
+  decide
 
 end Mosaik.Findings
 
